@@ -52,15 +52,15 @@ theorem startsWith47_append (d t : Bytes) (hd : d ≠ []) : startsWith47 (d ++ t
   | cons a as => rfl
 
 /-- a directory that exists has an existing parent directory (parent = File::getDirectoryName) -/
-theorem dirExists_parent (fs : Fs) (dir d b : Bytes) (s : Nat) (hs : splitLast isSep dir = some (d, s, b))
+theorem dirExists_parent (fs : Fs) (dir d b : Bytes) (s : Nat) (hs : splitLast isSlash dir = some (d, s, b))
     (hd : d ≠ []) (h : dirExists fs dir = true) : dirExists fs d = true := by
   obtain ⟨h1, h2, _⟩ := splitLast_some hs
   unfold dirExists sysStat resolve at h ⊢
   have hne : dir ≠ [] := by rw [h1]; simp
   rw [if_neg hne] at h
   rw [if_neg hd]
-  rw [h1, chunks_append_sep d s b h2, startsWith47_append d _ hd] at h
-  cases hw : walk fs walkFuel (if startsWith47 d = true then [] else cwd) (chunks d ++ chunks b) true with
+  rw [h1, kchunks_append_sep d s b h2, startsWith47_append d _ hd] at h
+  cases hw : walk fs walkFuel (if startsWith47 d = true then [] else cwd) (kchunks d ++ kchunks b) true with
   | found p e =>
     rw [hw] at h
     cases e with
@@ -113,10 +113,10 @@ theorem createHere_iff (fs : Fs) (dir : Bytes) (fault : Option Nat) (fired : Nat
         | ok u => simp only [isOk]; exact (dirExists_after_mkdir fs fs' dir (by rw [hm])).symm
         | error e => simp [isOk]
 
-theorem getDirectoryName_shorter (dir : Bytes) (h : getDirectoryName dir ≠ [46]) :
-    (getDirectoryName dir).length < dir.length := by
-  unfold getDirectoryName at h ⊢
-  cases hs : splitLast isSep dir with
+theorem getDirectoryNameK_shorter (dir : Bytes) (h : getDirectoryNameK dir ≠ [46]) :
+    (getDirectoryNameK dir).length < dir.length := by
+  unfold getDirectoryNameK at h ⊢
+  cases hs : splitLast isSlash dir with
   | none => simp [hs] at h
   | some t =>
     obtain ⟨d, s, b⟩ := t
@@ -134,11 +134,11 @@ theorem dirCreate_iff : ∀ (fuel : Nat) (fs : Fs) (dir : Bytes) (fault : Option
   | succ fuel ih =>
     intro fs dir fault fired hf
     simp only [dirCreate]
-    by_cases hc : getDirectoryName dir ≠ [46] ∧ getDirectoryName dir ≠ [] ∧ dirExists fs (getDirectoryName dir) = false
+    by_cases hc : getDirectoryNameK dir ≠ [46] ∧ getDirectoryNameK dir ≠ [] ∧ dirExists fs (getDirectoryNameK dir) = false
     · rw [if_pos hc]
-      have hlen := getDirectoryName_shorter dir hc.1
-      have ihp := ih fs (getDirectoryName dir) fault fired (by omega)
-      cases hrec : dirCreate fuel fs (getDirectoryName dir) fault fired with
+      have hlen := getDirectoryNameK_shorter dir hc.1
+      have ihp := ih fs (getDirectoryNameK dir) fault fired (by omega)
+      cases hrec : dirCreate fuel fs (getDirectoryNameK dir) fault fired with
       | mk fs' rest =>
         obtain ⟨r, fault', fired'⟩ := rest
         rw [hrec] at ihp
@@ -152,8 +152,8 @@ theorem dirCreate_iff : ∀ (fuel : Nat) (fs : Fs) (dir : Bytes) (fault : Option
           | false => rfl
           | true =>
             exfalso
-            unfold getDirectoryName at hc ihp
-            cases hs : splitLast isSep dir with
+            unfold getDirectoryNameK at hc ihp
+            cases hs : splitLast isSlash dir with
             | none => simp [hs] at hc
             | some t =>
               obtain ⟨d, s, b⟩ := t
@@ -168,7 +168,7 @@ theorem dirCreate_iff : ∀ (fuel : Nat) (fs : Fs) (dir : Bytes) (fault : Option
 /-- the strings Directory::create recurses through: `dir`, its directory name, … (down to, not including, "." or "") -/
 inductive Ancestor : Bytes → Bytes → Prop
   | self (dir : Bytes) : Ancestor dir dir
-  | parent {a dir d b : Bytes} {s : Nat} : Ancestor a dir → splitLast isSep a = some (d, s, b) → d ≠ [] → Ancestor d dir
+  | parent {a dir d b : Bytes} {s : Nat} : Ancestor a dir → splitLast isSlash a = some (d, s, b) → d ≠ [] → Ancestor d dir
 
 theorem ancestors_exist (fs : Fs) (dir a : Bytes) (h : dirExists fs dir = true) (ha : Ancestor a dir) :
     dirExists fs a = true := by
@@ -236,10 +236,10 @@ theorem dirCreate_adds : ∀ (fuel : Nat) (fs : Fs) (dir : Bytes) (fault : Optio
   | succ fuel ih =>
     intro fs dir fault fired
     simp only [dirCreate]
-    by_cases hc : getDirectoryName dir ≠ [46] ∧ getDirectoryName dir ≠ [] ∧ dirExists fs (getDirectoryName dir) = false
+    by_cases hc : getDirectoryNameK dir ≠ [46] ∧ getDirectoryNameK dir ≠ [] ∧ dirExists fs (getDirectoryNameK dir) = false
     · rw [if_pos hc]
-      have ihp := ih fs (getDirectoryName dir) fault fired
-      cases hrec : dirCreate fuel fs (getDirectoryName dir) fault fired with
+      have ihp := ih fs (getDirectoryNameK dir) fault fired
+      cases hrec : dirCreate fuel fs (getDirectoryNameK dir) fault fired with
       | mk fs' rest =>
         obtain ⟨r, fault', fired'⟩ := rest
         rw [hrec] at ihp
